@@ -10,6 +10,7 @@ import Mathlib.Tactic.NormNum
 import Mathlib.Algebra.Order.Field.Rat
 import OpmVerif.Proofs.Pvt
 import OpmVerif.Proofs.PvtFill
+import OpmVerif.Proofs.PvtFillDesc
 import OpmVerif.Proofs.Tab2DGuide
 import OpmVerif.Proofs.Tab1DDeriv
 import OpmVerif.Proofs.PvtRegion
@@ -362,6 +363,28 @@ theorem liveoil_node_honour_extended (fix g : Bool) (c : Consts K) (recs ext : L
     L.invBAt r.key row.1 = 1 / row.2.1 ∧ Tab2D.eval L.muT r.key row.1 = row.2.2 :=
   liveOil_node_honour fix g c recs ext L h he hk hn hrows i r hi j row hj
 
+/-- `fillTable` for rows handed over in *descending* `y` (PVTG: Rv from the saturated value
+down; every sample after the first takes the prepend branch): each column is the record's rows
+reversed. -/
+theorem filltable_layout_descending (fix : Bool) (c : Consts K) (val : K × K × K → K) (recs : List (Rec K))
+    (t : Table K) (hl : t.colV.length = t.colY.length)
+    (hs : ∀ r ∈ recs, StrictInc (r.rows.map (fun row => row.1)).reverse) :
+    ∃ t', fillTable fix c val t t.colY.length recs = some t' ∧ t'.guide = t.guide ∧
+      t'.xPos = t.xPos ++ recs.map (fun r => r.key) ∧
+      t'.colY = t.colY ++ recs.map (fun r => (r.rows.map (fun row => row.1)).reverse) ∧
+      t'.colV = t.colV ++ recs.map (fun r => (r.rows.map val).reverse) :=
+  fillTable_spec_desc fix c val recs t hl hs
+
+/-- **Node honouring of the wet-gas model, extended branches included** (keys = gas pressure
+ascending, rows = Rv descending). -/
+theorem wetgas_node_honour_extended (fix g : Bool) (c : Consts K) (recs ext : List (Rec K)) (L : Live K)
+    (h : wetGas fix g c recs = some L) (he : extendAll c recs = some ext)
+    (hk : StrictInc (ext.map fun r => r.key)) (hn : 2 ≤ ext.length)
+    (hrows : ∀ r ∈ ext, StrictInc (r.rows.map fun row => row.1).reverse ∧ 2 ≤ r.rows.length)
+    (i : Nat) (r : Rec K) (hi : ext[i]? = some r) (j : Nat) (row : K × K × K) (hj : r.rows[j]? = some row) :
+    L.invBAt r.key row.1 = 1 / row.2.1 ∧ Tab2D.eval L.muT r.key row.1 = row.2.2 :=
+  wetGas_node_honour fix g c recs ext L h he hk hn hrows i r hi j row hj
+
 /-! ## Several PVT regions: which table is in effect (`PvtxTable`, simple table containers)
 
 `β` is whatever a deck record carries.  A keyword is described by the table of region 1 (`t`)
@@ -502,5 +525,8 @@ example : ∀ k, k < qt.xPos.length → colEval qt k (nth qt.yPos k) = nth ([1, 
     simp [qt, colEval, colBlend, yToBeta, segIdx, nth, col]
 example : Tab2D.eval qt (evalX qt.yPos qt.xPos 150) 150 = 2 := by
   simp [qt, Tab2D.eval, evalX, evalSeg, shift, xToAlpha, colEval, colBlend, yToBeta, segIdx, nth, col]; norm_num
+/-- a PVTG-like branch: Rv descending 3, 2, 0 — reversed it is strictly increasing -/
+example : StrictInc ((([(3, 1, 1), (2, 1, 1), (0, 1, 1)] : List (ℚ × ℚ × ℚ)).map fun row => row.1).reverse) := by
+  simpa using strictInc_three (a := (0 : ℚ)) (b := 2) (c := 3) (by norm_num) (by norm_num)
 
 end OpmVerif.Props.C14
